@@ -31,8 +31,8 @@ def _body(text, header_re):
 
 
 def _strip_comments(t):
-    t = re.sub(r"/\*.*?\*/", "", t, flags=re.S)
-    return re.sub(r"//[^\n]*", "", t)
+    t = re.sub(r"//[^\n]*", "", t)          # line comments first: they may mention `/*`
+    return re.sub(r"/\*.*?\*/", "", t, flags=re.S)
 
 
 def _c_string(lit):
@@ -83,8 +83,21 @@ def extract(repo):
     se = _strip_comments(_body(sr, r"sectionReader::seekInstanceEnd\s*\([^)]*\)\s*\{"))
     cases = re.findall(r"case\s+'((?:[^'\\]|\\.)+)'\s*:", se)
     cases = [_c_string(c)[0] for c in cases]
-    if 'findNormalString( "*/" )' not in se and 'findNormalString("*/")' not in se:
-        raise ValueError("seekInstanceEnd no longer skips comments with findNormalString(\"*/\")")
+    src_nc = _strip_comments(sr)
+    n_old = len(re.findall(r'findNormalString\(\s*"\*/"\s*\)', src_nc))
+    n_raw = len(re.findall(r'\bskipComment\(\s*\)\s*;', src_nc)) - 0
+    if n_old > 0 and n_raw == 0:
+        comments_raw = False
+    elif n_old == 0 and n_raw >= 4:
+        sc = _body(src_nc, r"void\s+sectionReader::skipComment\s*\(\s*\)\s*\{")
+        if not re.search(r"prev\s*==\s*'\*'\s*\)\s*&&\s*\(\s*c\s*==\s*'/'", sc) or "GetLiteralStr" in sc or "findNormalString" in sc:
+            raise ValueError("skipComment: raw scan for */ not recognised")
+        comments_raw = True
+    else:
+        raise ValueError(f"comments are skipped in two different ways ({n_old} x findNormalString, {n_raw} x skipComment)")
+    CS = "skipComment()" if comments_raw else 'findNormalString( "*/" )'
+    if CS not in se:
+        raise ValueError("seekInstanceEnd no longer skips comments")
     if not re.search(r"isdigit\(\s*_file\.peek\(\)\s*\)", se):
         raise ValueError("seekInstanceEnd: `#` followed by a digit test not found")
 
@@ -113,15 +126,15 @@ def extract(repo):
     token_comments = all(places)
     if token_comments:
         swc = _strip_comments(_body(sr, r"sectionReader::skipWSandComments\s*\(\s*\)\s*\{"))
-        if 'findNormalString( "*/" )' not in swc or "skipWS()" not in swc:
+        if CS not in swc or "skipWS()" not in swc:
             raise ValueError("skipWSandComments: shape not recognised")
 
     # --- what may stand before `#`: white space and ONE comment (old) or any number of comments (skipWSandComments)
     head = rn0[:rn0.find("'#'")]
     if re.search(r"skipWSandComments\(\);\s*c = _file\.get\(\);\s*if\(\s*c != $", head.strip() + " ") or \
-            (re.search(r"skipWSandComments\(\)", head) and 'findNormalString( "*/" )' not in head):
+            (re.search(r"skipWSandComments\(\)", head) and CS not in head):
         lead_gap = True
-    elif 'findNormalString( "*/" )' in head and head.count("skipWS()") >= 2:
+    elif CS in head and head.count("skipWS()") >= 2:
         lead_gap = False
     else:
         raise ValueError("readInstanceNumber: what is skipped before '#' not recognised")
@@ -240,6 +253,8 @@ def extract(repo):
            "def seekCases : List Char := [" + ", ".join(_lean_char(c) for c in cases) + "]",
            f"def instanceIdMax : Nat := {idmax}",
            f"/-- `numeric_limits<instanceID>::digits10 + 1` -/\ndef instanceIdDigits : Nat := {digits10 + 1}",
+           "/-- comments are skipped as raw text up to the first `*/` (else with the general search findNormalString) -/",
+           f"def commentsRaw : Bool := {'true' if comments_raw else 'false'}",
            "/-- `getDelimitedKeyword` accumulates the keyword in an unbounded string: keywords of any length are read whole -/",
            f"def kwUnbounded : Bool := {'true' if kw_unbounded else 'false'}",
            "/-- `readInstanceNumber`: leading zeros of an instance name do not count towards the digit limit -/",
